@@ -16,8 +16,8 @@ PID = "C20"
 LEVEL = cc.LEVEL
 BUILDS = {"quick": ["py", "cy"], "thorough": ["py", "cy"]}
 CASE_TIMEOUT = cc.CASE_TIMEOUT
-LEAN_MODULES = []
-THEOREMS = []
+LEAN_MODULES = ["AsynqModel.Theorems.C20"]
+THEOREMS = ["AsynqModel.Core." + n for n in ['C20_keepdeps_inert', 'C20_keepdeps_inert_conv', 'C20_keepdeps_complete', 'C20_maxstack_inert', 'C20_maxstack_trace', 'C20_cfg_reads', 'C20_guard_counterexample']]
 MIX = [("full", 4), ("sync", 2), ("yield_err", 2), ("yield_ctx", 1), ("nonasync", 1)]
 RULE = ("grammar-generated task programs (profiles %s) each run under the default options and under a random subset of "
         "the boolean debug options with a scripted clock (1 us .. 2 h per reading), both builds; non-trivial = at least 2 "
